@@ -94,6 +94,8 @@ pub enum Fault {
     Close,
     /// answer correctly, then close the connection
     CloseAfter,
+    /// reset the connection (TCP RST) instead of answering: the client's read fails with an I/O error
+    Reset,
 }
 
 #[derive(Debug, Clone, Default)]
@@ -197,6 +199,18 @@ fn serve(mut stream: TcpStream, conn: usize, db: &Arc<Mutex<Db>>, plan: &Arc<Mut
             Some(Fault::Close) => {
                 log.lock().unwrap().push(LogEntry { conn, index, query: q.clone(), answer: "<connection closed>".into() });
                 break;
+            }
+            Some(Fault::Reset) => {
+                log.lock().unwrap().push(LogEntry { conn, index, query: q.clone(), answer: "<connection reset>".into() });
+                let fd = std::os::unix::io::AsRawFd::as_raw_fd(&stream);
+                let linger = libc::linger { l_onoff: 1, l_linger: 0 };
+                // SAFETY: setsockopt on our own socket; with SO_LINGER 0 closing it sends a RST
+                unsafe {
+                    _ = libc::setsockopt(fd, libc::SOL_SOCKET, libc::SO_LINGER, std::ptr::addr_of!(linger).cast(), std::mem::size_of::<libc::linger>() as u32);
+                }
+                drop(reader);
+                drop(stream);
+                return;
             }
             Some(Fault::CloseAfter) | None => answer(&db.lock().unwrap(), &q),
         };
